@@ -1,7 +1,301 @@
-// Package cagg interprets the metric-aggregator op language against the real packages (stub).
+// Package cagg interprets the metric-aggregator op language against the real packages: real stat nodes
+// (stat.GetOrCreateResourceNode, the inbound node), the real doAggregate / writeTaskLoop of core/log/metric (reached
+// through go:linkname, see link.go), a real DefaultMetricLogWriter on a fresh temporary directory per case and real
+// searchers on it.  The background goroutines of metric.InitTask are never started: `aggregate` calls doAggregate
+// once at the virtual clock and lets the (real) write loop drain the map in lock step.
 package cagg
 
-import "verifharness/internal/vh"
+import (
+	"fmt"
+	"io"
+	"os"
+	"path/filepath"
+	"runtime"
+	"sort"
+	"strconv"
+	"strings"
+	"time"
 
-// New returns the interpreter for the aggregator bridge check.
-func New() vh.Interp { return nil }
+	"github.com/alibaba/sentinel-golang/core/base"
+	"github.com/alibaba/sentinel-golang/core/config"
+	"github.com/alibaba/sentinel-golang/core/log/metric"
+	"github.com/alibaba/sentinel-golang/core/stat"
+	"verifharness/internal/vh"
+)
+
+const app = "app"
+
+type batch struct {
+	ts    uint64
+	items []base.MetricItem
+}
+
+// proxy records every Write the write loop performs and forwards it to the real writer.
+type proxy struct {
+	inner metric.MetricLogWriter
+	log   []batch
+	done  chan struct{}
+}
+
+func (p *proxy) Write(ts uint64, items []*base.MetricItem) error {
+	if ts == 0 && len(items) == 0 {
+		// the harness's end-of-drain marker (the aggregator never writes second 0): everything queued before it
+		// has been written, because the channel is FIFO and the loop is its only consumer
+		p.done <- struct{}{}
+		return nil
+	}
+	var err error
+	if p.inner != nil {
+		err = p.inner.Write(ts, items)
+	}
+	b := batch{ts: ts}
+	for _, it := range items {
+		b.items = append(b.items, *it)
+	}
+	p.log = append(p.log, b)
+	return err
+}
+
+type Interp struct {
+	clk       *vh.Clock
+	dir       string
+	px        *proxy
+	inner     metric.MetricLogWriter
+	loop      bool
+	searchers map[string]metric.MetricSearcher
+}
+
+func New() vh.Interp {
+	time.Local = time.UTC
+	runtime.GOMAXPROCS(1)
+	vh.Silence()
+	c := vh.NewClock(1_900_000_000_000)
+	sweep()
+	return &Interp{clk: c, searchers: map[string]metric.MetricSearcher{}}
+}
+
+// sweep removes directories left behind by harness processes that are no longer alive.
+func sweep() {
+	ds, _ := filepath.Glob(filepath.Join(os.TempDir(), "verif-agg-*"))
+	for _, d := range ds {
+		parts := strings.Split(filepath.Base(d), "-")
+		if len(parts) < 4 {
+			continue
+		}
+		pid, err := strconv.Atoi(parts[2])
+		if err != nil || pid == os.Getpid() {
+			continue
+		}
+		if _, err := os.Stat(fmt.Sprintf("/proc/%d", pid)); err != nil {
+			_ = os.RemoveAll(d)
+		}
+	}
+}
+
+func (it *Interp) drop() {
+	if it.inner != nil {
+		if c, ok := it.inner.(io.Closer); ok {
+			_ = c.Close()
+		}
+	}
+	it.inner, it.px = nil, nil
+	metricWriter = nil
+	if it.dir != "" {
+		_ = os.RemoveAll(it.dir)
+		it.dir = ""
+	}
+	it.searchers = map[string]metric.MetricSearcher{}
+	// anything a previous case left in the channel
+	for {
+		select {
+		case <-writeChan:
+			continue
+		default:
+		}
+		break
+	}
+	lastFetchTime = -1
+	stat.ResetResourceNodeMap()
+}
+
+func (it *Interp) Reset() { it.drop() }
+func (it *Interp) Close() { it.drop() }
+
+func ev(s string) base.MetricEvent {
+	switch s {
+	case "pass":
+		return base.MetricEventPass
+	case "block":
+		return base.MetricEventBlock
+	case "complete":
+		return base.MetricEventComplete
+	case "error":
+		return base.MetricEventError
+	case "rt":
+		return base.MetricEventRt
+	}
+	panic("bad event " + s)
+}
+
+func showItem(m *base.MetricItem) string {
+	return fmt.Sprintf("%d:%s:%d:%d:%d:%d:%d:%d:%d:%d", m.Timestamp, m.Resource, m.PassQps, m.BlockQps,
+		m.CompleteQps, m.ErrorQps, m.AvgRt, m.OccupiedPassQps, m.Concurrency, m.Classification)
+}
+
+// canon: by time stamp, then resource name (the order of the nodes inside one second is Go map iteration order).
+func canon(items []*base.MetricItem) []*base.MetricItem {
+	xs := append([]*base.MetricItem(nil), items...)
+	sort.SliceStable(xs, func(i, j int) bool {
+		if xs[i].Timestamp != xs[j].Timestamp {
+			return xs[i].Timestamp < xs[j].Timestamp
+		}
+		return xs[i].Resource < xs[j].Resource
+	})
+	return xs
+}
+
+func showItems(items []*base.MetricItem, err error) string {
+	if err != nil {
+		return "err"
+	}
+	xs := []string{}
+	for _, m := range canon(items) {
+		xs = append(xs, showItem(m))
+	}
+	return vh.List(xs)
+}
+
+func (it *Interp) node(res string, cls int64) *stat.ResourceNode {
+	if res == "IN" {
+		return stat.InboundNode()
+	}
+	return stat.GetOrCreateResourceNode(res, base.ResourceType(cls))
+}
+
+func (it *Interp) searcher(id string) metric.MetricSearcher {
+	s, ok := it.searchers[id]
+	if !ok {
+		var err error
+		s, err = metric.NewDefaultMetricSearcher(it.dir, metric.FormMetricFileName(app, false))
+		if err != nil {
+			panic(err)
+		}
+		it.searchers[id] = s
+	}
+	return s
+}
+
+func (it *Interp) Step(t []string, op string) string {
+	switch t[0] {
+	case "clock":
+		it.clk.SetMs(vh.U(t[1]))
+		return ""
+	case "agg.new":
+		maxSize, maxFiles, n, iv := vh.U(t[1]), vh.U(t[2]), vh.U(t[3]), vh.U(t[4])
+		if maxSize == 0 || maxFiles == 0 || n == 0 || iv == 0 || iv%n != 0 || it.clk.CurrentTimeMillis() == 0 {
+			return "bad-op"
+		}
+		it.drop()
+		dir, err := os.MkdirTemp("", fmt.Sprintf("verif-agg-%d-", os.Getpid()))
+		if err != nil {
+			panic(err)
+		}
+		it.dir = dir
+		cfg := config.NewDefaultConfig()
+		cfg.Sentinel.Log.Dir = dir
+		cfg.Sentinel.App.Name = app
+		cfg.Sentinel.Stat.GlobalStatisticSampleCountTotal = uint32(n)
+		cfg.Sentinel.Stat.GlobalStatisticIntervalMsTotal = uint32(iv)
+		if base.CheckValidityForReuseStatistic(cfg.Sentinel.Stat.MetricStatisticSampleCount, cfg.Sentinel.Stat.MetricStatisticIntervalMs,
+			uint32(n), uint32(iv)) != nil {
+			// the node's read-only default metric must tile the array; per-second items do not depend on its geometry
+			cfg.Sentinel.Stat.MetricStatisticSampleCount = uint32(n)
+			cfg.Sentinel.Stat.MetricStatisticIntervalMs = uint32(iv)
+		}
+		config.ResetGlobalConfig(cfg)
+		// the package-level inbound node was created at process start (real clock, default geometry): give it the
+		// state a process started now would have
+		*stat.InboundNode() = *stat.NewResourceNode(base.TotalInBoundResourceName, base.ResTypeCommon)
+		w, err := metric.NewDefaultMetricLogWriterOfApp(maxSize, uint32(maxFiles), app)
+		if err != nil {
+			return "err"
+		}
+		it.inner = w
+		it.px = &proxy{inner: w, done: make(chan struct{}, 1)}
+		metricWriter = it.px
+		if !it.loop {
+			it.loop = true
+			go writeTaskLoop() // the real loop; it only ever runs while `aggregate` waits for it
+		}
+		return "ok"
+	case "record":
+		if it.px == nil {
+			return "bad-op"
+		}
+		it.node(t[1], vh.I(t[2])).AddCount(ev(t[3]), int64(vh.U(t[4])))
+		return ""
+	case "conc":
+		if it.px == nil {
+			return "bad-op"
+		}
+		it.node(t[1], vh.I(t[2])).UpdateConcurrency(int32(vh.I(t[3])))
+		return ""
+	case "aggregate":
+		if it.px == nil {
+			return "bad-op"
+		}
+		it.px.log = nil
+		doAggregate()
+		// lock step with the real write loop: queue an end-of-drain marker behind whatever doAggregate queued and
+		// wait until the loop hands it to the proxy
+		writeChan <- map[uint64][]*base.MetricItem{0: nil}
+		<-it.px.done
+		xs := []string{}
+		for _, b := range it.px.log {
+			ps := make([]*base.MetricItem, 0, len(b.items))
+			for i := range b.items {
+				ps = append(ps, &b.items[i])
+			}
+			ys := []string{}
+			for _, m := range canon(ps) {
+				ys = append(ys, showItem(m))
+			}
+			xs = append(xs, fmt.Sprintf("%d=%s", b.ts, strings.Join(ys, "+")))
+		}
+		return vh.List(xs)
+	case "log.files":
+		if it.px == nil {
+			return "bad-op"
+		}
+		es, err := os.ReadDir(it.dir)
+		if err != nil {
+			panic(err)
+		}
+		xs := []string{}
+		for _, e := range es {
+			st, err := e.Info()
+			if err != nil {
+				panic(err)
+			}
+			xs = append(xs, fmt.Sprintf("%s:%d", e.Name(), st.Size()))
+		}
+		return vh.List(xs)
+	case "log.find":
+		if it.px == nil {
+			return "bad-op"
+		}
+		res := t[4]
+		if res == "*" {
+			res = ""
+		} else if res == "IN" {
+			res = base.TotalInBoundResourceName
+		}
+		return showItems(it.searcher(t[1]).FindByTimeAndResource(vh.U(t[2]), vh.U(t[3]), res))
+	case "log.from":
+		if it.px == nil {
+			return "bad-op"
+		}
+		return showItems(it.searcher(t[1]).FindFromTimeWithMaxLines(vh.U(t[2]), uint32(vh.U(t[3]))))
+	}
+	return "bad-op"
+}
